@@ -4,6 +4,7 @@
 #include <fstream>
 #include <optional>
 #include <utility>
+#include <algorithm>
 
 namespace rvutils::pbo
 {
@@ -426,7 +427,9 @@ namespace rvutils::pbo
             do
             {
                 file.read(buff, buff_size);
-                for (size_t i = 0; i < buff_size; i++)
+                // Only what was actually read may be searched, the rest of the buffer is stale
+                auto got = static_cast<size_t>(file.gcount());
+                for (size_t i = 0; i < got; i++)
                 {
                     if (buff[i] == '\0')
                     {
@@ -436,7 +439,8 @@ namespace rvutils::pbo
                     }
                 }
                 runs++;
-            } while (file.tellg() < eof && !file.eof());
+            } while (file.good() && file.tellg() < eof);
+            file.clear();
             file.seekg(start_pos);
             return -1;
         }
@@ -530,6 +534,12 @@ namespace rvutils::pbo
 
             // read in the whole data available into helper struct
             file.read(reinterpret_cast<char*>(&data_mapped), sizeof(header::bin));
+            if (static_cast<size_t>(file.gcount()) != sizeof(header::bin))
+            { // The file ends inside the record
+                file.clear();
+                file.seekg(start_pos);
+                return {};
+            }
             file.clear();
 
 
@@ -1219,6 +1229,13 @@ namespace rvutils::pbo
             {
                 m_headers.push_back(*opt_header);
             }
+            if (!opt_header.has_value())
+            { // The header table is not terminated: the file is truncated or damaged
+                m_headers.clear();
+                m_attributes.clear();
+                m_good = false;
+                return;
+            }
             m_headers.push_back(*opt_header);
 #if _DEBUG
             DBG_POS = file.tellg();
@@ -1233,6 +1250,16 @@ namespace rvutils::pbo
                 offset += it.size;
                 it.block_data.end = offset;
             }
+
+            // Only entries whose data lies completely inside the file are exposed
+            file.seekg(0, std::ios::end);
+            auto file_end = file.tellg();
+            auto terminator = m_headers.back();
+            m_headers.pop_back();
+            m_headers.erase(std::remove_if(m_headers.begin(), m_headers.end(), [file_end](const header& h) -> bool {
+                return h.block_data.end > file_end;
+            }), m_headers.end());
+            m_headers.push_back(terminator);
 
             // All fine here, end processing.
             m_good = true;
